@@ -56,37 +56,46 @@ Theorem C09_dynamic_ignores_proxyproto_refuted : forall line segs, line <> [] ->
 Proof. exact dynamic_ignores_proxyproto_refuted. Qed.
 Print Assumptions C09_dynamic_ignores_proxyproto_refuted.
 
-(* tcp+sni, with the bufio.Reader modelled: no byte is invented, duplicated or reordered;
-   the upstream receives the stream with exactly the bytes stuck in the reader cut out ... *)
-Theorem C09_sni_upstream_stream : forall (pp : bool) (line : str) segs st,
-  sni_setup (if pp then line else []) segs = Ok (Some st) ->
-  exists data, data ++ s_lost st ++ concat (s_src st) = concat segs /\
-    upstream_stream KSni pp line segs = Ok (Some ((if pp then line else []) ++ data ++ concat (s_src st))).
+(* Reading on through the bufio.Reader after Peek / ReadFull yields exactly what is pending
+   (buffered bytes, then the connection), for every segmentation. *)
+Theorem C09_copy_from_reader_preserves : forall b, wf b -> copy_from_reader b = Ok (pending b).
+Proof. exact copy_from_reader_preserves. Qed.
+Print Assumptions C09_copy_from_reader_preserves.
+
+(* tcp+sni (fix commit c17abb6: the client->upstream copier reads through the bufio.Reader):
+   for every segmentation, whenever the handshake routes the connection, the upstream receives
+   [PROXY line] ++ the client's stream from its very first byte, including anything sent
+   together with the ClientHello. *)
+Theorem C09_sni_upstream_stream : forall (pp : bool) (line : str) segs up,
+  upstream_stream KSni pp line segs = Ok (Some up) ->
+  up = spec_upstream KSni pp line (concat segs).
 Proof. exact sni_upstream_stream. Qed.
 Print Assumptions C09_sni_upstream_stream.
 
-(* ... which is the whole stream for every segmentation outside the region
-   (nothing buffered beyond the ClientHello) ... *)
-Theorem C09_sni_upstream_stream_on_domain : forall (pp : bool) (line : str) segs,
-  region_sni_leftover KSni (if pp then line else []) segs = false ->
-  forall st, sni_setup (if pp then line else []) segs = Ok (Some st) ->
-  upstream_stream KSni pp line segs = Ok (Some (spec_upstream KSni pp line (concat segs))).
-Proof. exact sni_upstream_stream_on_domain. Qed.
-Print Assumptions C09_sni_upstream_stream_on_domain.
-
-Theorem C09_sni_on_domain_nonvacuous :
-  region_sni_leftover KSni [] [firstn 20 wit_hello; skipn 20 wit_hello; [1; 2; 3]%N] = false /\
-  upstream_stream KSni false [] [firstn 20 wit_hello; skipn 20 wit_hello; [1; 2; 3]%N]
+Theorem C09_sni_upstream_nonvacuous :
+  upstream_stream KSni false [] [wit_hello ++ [1; 2; 3]%N; [9%N]] = Ok (Some (wit_hello ++ [1; 2; 3; 9]%N)) /\
+  upstream_stream KSni false [] [firstn 20 wit_hello; skipn 20 wit_hello ++ [1%N]; [2; 3]%N]
     = Ok (Some (wit_hello ++ [1; 2; 3]%N)).
-Proof. exact sni_on_domain_nonvacuous. Qed.
-Print Assumptions C09_sni_on_domain_nonvacuous.
+Proof. exact sni_upstream_nonvacuous. Qed.
+Print Assumptions C09_sni_upstream_nonvacuous.
 
-(* ... and is not inside it (finding F-C09-1): hello ++ 3 bytes in one segment, then 1 byte. *)
+(* F-C09-1, repaired by c17abb6.  The unrepaired copier read the raw connection: the upstream
+   received the stream with exactly the bytes stuck in the reader cut out ... *)
+Theorem C09_sni_unrepaired_stream : forall (pp : bool) (line : str) segs up,
+  upstream_stream_sni_unrepaired pp line segs = Ok (Some up) ->
+  exists data rest, up = (if pp then line else []) ++ data ++ rest /\
+    data ++ sni_leftover_unrepaired (if pp then line else []) segs ++ rest = concat segs.
+Proof. exact sni_unrepaired_stream. Qed.
+Print Assumptions C09_sni_unrepaired_stream.
+
+(* ... witness: hello ++ 3 bytes in one segment, then 1 byte: the 3 bytes vanished; the
+   repaired model delivers them. *)
 Theorem C09_sni_leftover_refuted :
-  exists segs, region_sni_leftover KSni [] segs = true /\
-    upstream_stream KSni false [] segs = Ok (Some (wit_hello ++ [9%N])) /\
+  exists segs, sni_leftover_unrepaired [] segs = [1; 2; 3]%N /\
+    upstream_stream_sni_unrepaired false [] segs = Ok (Some (wit_hello ++ [9%N])) /\
     concat segs = wit_hello ++ [1; 2; 3; 9]%N /\
-    upstream_stream KSni false [] segs <> Ok (Some (spec_upstream KSni false [] (concat segs))).
+    upstream_stream_sni_unrepaired false [] segs <> Ok (Some (spec_upstream KSni false [] (concat segs))) /\
+    upstream_stream KSni false [] segs = Ok (Some (spec_upstream KSni false [] (concat segs))).
 Proof. exact sni_leftover_refuted. Qed.
 Print Assumptions C09_sni_leftover_refuted.
 
